@@ -14,7 +14,8 @@ One history per line, blank-separated fields:
        ev=<event>~<log>~<items>~<spray>/…
 
   event  S<tag> | R<tag>[@<receiver n.s>] | U<addr> | D<addr> | T | C<now> | X
-  log    -  or  <addr>.<tag>.<ok 0|1>,…            the mock CLAs' send log of this event (`panic` if the code panicked)
+  log    -  or  <addr>.<tag>.<ok 0|1>.<seq>,…      the mock CLAs' send log of this event: CLA, bundle definition, answer,
+                                                    sequence number on the wire (`panic` if the code panicked)
   items  -  or  <src n.s>.<ts>.<seq>|<tag>|<pending>|<constraints dfrcl|->|<receiver|->|<epidemic dst|->|<sentE e+e|->|<sentP>|<sentD>,…
   spray  -  or  <key>|<copies>|<sent e+e|->,…
 
@@ -87,10 +88,12 @@ def parseLog (bundles : List Bundle) (peers : List Peer) (s : String) : Option (
   if s == "-" then some [] else
   (s.splitOn ",").mapM fun e =>
     match e.splitOn "." with
-    | [a, t, ok] => do
+    | [a, t, ok, seq] => do
       let a ← a.toNat?
       let t ← t.toNat?
-      some (Output.sent (← peers.find? (·.addr == a)) (← bundles.find? (·.tag == t)) (ok == "1"))
+      -- the concrete bundle on the wire: the definition with the sequence number the node assigned
+      some (Output.sent (← peers.find? (·.addr == a)) { (← bundles.find? (·.tag == t)) with seq := ← seq.toNat? }
+        (ok == "1"))
     | _ => none
 
 structure Hist where
@@ -139,6 +142,7 @@ def kv (fs : List String) (k : String) : Option String :=
 /-- The code variant the model mirrors (facts regenerated from the source). -/
 structure Variant where
   seqFirst : Bool
+  skipStored : Bool
   expiryNow : Bool
   dtlsrFail : Bool
   holdFix : Bool
@@ -170,7 +174,7 @@ def parseHist (v : Variant) (line : String) : Option Hist := do
       | _ => none)
   let evS ← kv fs "ev"
   let cfg : Cfg := { self := self, algo := algo, mule := mule, sensorNodes := sensors, sprayL := l,
-                     bcast := ⟨999, 0⟩, seqFirst := v.seqFirst, expiryNow := v.expiryNow,
+                     bcast := ⟨999, 0⟩, seqFirst := v.seqFirst, skipStored := v.skipStored, expiryNow := v.expiryNow,
                      dtlsrFail := v.dtlsrFail, holdFix := v.holdFix }
   let mut obs : List Obs := []
   let mut panicAt : Option Nat := none
@@ -213,14 +217,17 @@ def normView (v : View) : View :=
     spray := (v.spray.map (fun km => (km.1, { km.2 with sent := sortEids km.2.sent }))).mergeSort
       (fun a b => keyLe a.1 b.1) }
 
-def outKey : Output → Nat × Nat × Nat
-  | .sent p b ok => (b.tag, p.addr, if ok then 1 else 0)
-  | .deleted _ => (0, 0, 2)
+def outKey : Output → Nat × Nat × Nat × Nat
+  | .sent p b ok => (b.tag, p.addr, b.seq, if ok then 1 else 0)
+  | .deleted _ => (0, 0, 0, 2)
 
-/-- Canonical form of the sends of one event: (tag, CLA address, outcome), sorted. -/
-def normOuts (l : List Output) : List (Nat × Nat × Nat) :=
-  ((l.filter (fun o => match o with | .sent .. => true | _ => false)).map outKey).mergeSort
-    (fun x y => x.1 < y.1 || (x.1 == y.1 && (x.2.1 < y.2.1 || (x.2.1 == y.2.1 && x.2.2 ≤ y.2.2))))
+def lexLe4 (x y : Nat × Nat × Nat × Nat) : Bool :=
+  x.1 < y.1 || (x.1 == y.1 && (x.2.1 < y.2.1 || (x.2.1 == y.2.1 &&
+    (x.2.2.1 < y.2.2.1 || (x.2.2.1 == y.2.2.1 && x.2.2.2 ≤ y.2.2.2)))))
+
+/-- Canonical form of the sends of one event: (tag, CLA address, sequence number on the wire, outcome), sorted. -/
+def normOuts (l : List Output) : List (Nat × Nat × Nat × Nat) :=
+  ((l.filter (fun o => match o with | .sent .. => true | _ => false)).map outKey).mergeSort lexLe4
 
 /-! ## rendering (for `diff` details) -/
 
@@ -240,8 +247,8 @@ def showView (v : View) : String :=
   (if v.items.isEmpty then "-" else ",".intercalate (v.items.map showItem)) ++ "~" ++
   (if v.spray.isEmpty then "-" else
     ",".intercalate (v.spray.map fun km => s!"{showKey km.1}|{km.2.copies}|{showEids km.2.sent}"))
-def showOuts (l : List (Nat × Nat × Nat)) : String :=
-  if l.isEmpty then "-" else ",".intercalate (l.map fun o => s!"{o.2.1}.{o.1}.{o.2.2}")
+def showOuts (l : List (Nat × Nat × Nat × Nat)) : String :=
+  if l.isEmpty then "-" else ",".intercalate (l.map fun o => s!"{o.2.1}.{o.1}.{o.2.2.2}.{o.2.2.1}")
 def showEvent : Event → String
   | .submit b => s!"S{b.tag}"
   | .receive b r => s!"R{b.tag}" ++ (match r with | some e => "@" ++ showEid e | none => "")
@@ -253,29 +260,29 @@ def showEvent : Event → String
 
 /-! ## environment of the line -/
 
-/-- The CLA addresses the implementation handed the bundle with this (source, time) to in event `evNo`. -/
+/-- The CLA addresses the implementation handed the bundle with this ID to in event `evNo`. -/
 def observedFor (h : Hist) (evNo : Nat) (k : Key) : List Nat :=
   match h.obs[evNo]? with
   | some o => o.outs.filterMap fun out =>
       match out with
-      | .sent p b _ => if b.src == k.src && b.ts == k.ts then some p.addr else none
+      | .sent p b _ => if b.key == k then some p.addr else none
       | _ => none
   | none => []
 
 /-- The environment of the line. The iteration order of `Manager.Sender()` (a `sync.Map`) is not
-observable; the order used for the model puts `lead` first, then the CLAs the implementation actually
-handed the bundle to in this event, then the rest. -/
-def envOf (h : Hist) (lead : List Nat) : Env :=
+observable; the order used for the model while the bundle `k` is processed puts `lead k` first, then the
+CLAs the implementation actually handed that bundle to in this event, then the rest. -/
+def envOf (h : Hist) (lead : Key → List Nat) : Env :=
   { sendOk := fun addr tag n =>
       match h.oracle.find? (fun e => e.1 == (addr, tag)) with
       | some (_, pat) => if pat.isEmpty then true else pat.getD (n % pat.length) true
       | none => true
-    prefer := fun evNo k => lead ++ observedFor h evNo k
+    prefer := fun evNo k => lead k ++ observedFor h evNo k
     cand := fun e b => h.cand.contains (e, b.dst) }
 
-/-- Candidate orders for one event. Only the sensor-mule wrapper over a spray variant needs more than
-one: a sensor node the algorithm picked and the wrapper dropped again leaves no trace (its copy and
-its list entry are given back), but it used up a slot of the copy budget; so "j sensor CLAs first"
+/-- Candidate orders for one bundle in one event. Only the sensor-mule wrapper over a spray variant needs
+more than one: a sensor node the algorithm picked and the wrapper dropped again leaves no trace (its copy
+and its list entry are given back), but it used up a slot of the copy budget; so "j sensor CLAs first"
 for j = 0, 1, … are all possible. -/
 def leads (h : Hist) : List (List Nat) :=
   let spray := h.cfg.algo == .spray || h.cfg.algo == .binarySpray
@@ -285,34 +292,63 @@ def leads (h : Hist) : List (List Nat) :=
       (List.range (sensors.length + 1)).map (fun j => sensors.reverse.take j)
   else [[]]
 
+/-- The choice of a candidate order per bundle ID (index into `leads`; default 0). -/
+abbrev Choice := List (Key × Nat)
+
+def Choice.idx (c : Choice) (k : Key) : Nat := ((c.find? (fun e => e.1 == k)).map (·.2)).getD 0
+
+def leadOf (h : Hist) (c : Choice) (k : Key) : List Nat := (leads h).getD (c.idx k) []
+
+/-- What one event did to the bundle `k`: its sends, its item, its spray bookkeeping (canonical). -/
+def projKey (k : Key) (outs : List Output) (v : View) :=
+  (normOuts (outs.filter fun o => match o with | .sent _ b _ => b.key == k | _ => false),
+   ((normView v).items.filter (fun i => i.key == k)),
+   ((normView v).spray.filter (fun km => km.1 == k)))
+
 /-- Compare one step of the model with the observation. -/
-def stepDiff (h : Hist) (lead : List Nat) (n : Node) (i : Nat) (o : Obs) : Node × Option String :=
-  let r := step (envOf h lead) n o.ev
+def stepDiff (h : Hist) (c : Choice) (n : Node) (i : Nat) (o : Obs) : Node × List Output × Option String :=
+  let r := step (envOf h (leadOf h c)) n o.ev
   let mo := normOuts r.2
   let go_ := normOuts o.outs
   if mo != go_ then
-    (r.1, some s!"ev={i}:{showEvent o.ev} sends model={showOuts mo} impl={showOuts go_}")
+    (r.1, r.2, some s!"ev={i}:{showEvent o.ev} sends model={showOuts mo} impl={showOuts go_}")
   else
     let mv := normView (viewOf r.1)
     let gv := normView o.view
     if mv != gv then
-      (r.1, some s!"ev={i}:{showEvent o.ev} store model={showView mv} impl={showView gv}")
-    else (r.1, none)
+      (r.1, r.2, some s!"ev={i}:{showEvent o.ev} store model={showView mv} impl={showView gv}")
+    else (r.1, r.2, none)
 
-/-- Replay on the model; `none` = agreement, `some detail` = first disagreement. Every event is tried
-with the candidate orders in turn; the state (store and spray bookkeeping) is compared in full after
-every event, so the first order that reproduces the observation determines the continuation. -/
+/-- Search for a choice of candidate orders that reproduces the observation of one event: the bundles of
+an event are processed independently of each other (a step for one ID touches only that ID's item and
+bookkeeping), so the first bundle whose projection differs gets its next candidate order; `fuel` bounds
+the number of rounds (#bundles × #orders suffices). -/
+def searchStep (h : Hist) (n : Node) (i : Nat) (o : Obs) (keys : List Key) :
+    Nat → Choice → Node × Option String
+  | 0, c => let t := stepDiff h c n i o; (t.1, t.2.2)
+  | fuel + 1, c =>
+    let t := stepDiff h c n i o
+    match t.2.2 with
+    | none => (t.1, none)
+    | some d =>
+      let bad := keys.find? fun k =>
+        projKey k t.2.1 (viewOf t.1) != projKey k o.outs o.view && c.idx k + 1 < (leads h).length
+      match bad with
+      | none => (t.1, some d)
+      | some k => searchStep h n i o keys fuel ((k, c.idx k + 1) :: c.filter (fun e => e.1 != k))
+
+/-- Replay on the model; `none` = agreement, `some detail` = first disagreement. The state (store and
+spray bookkeeping) is compared in full after every event, so the choice of orders that reproduces the
+observation determines the continuation. -/
 def replay (h : Hist) : Option String :=
   let rec go (n : Node) (i : Nat) : List Obs → Option String
     | [] => none
     | o :: os =>
-      let tries := (leads h).map fun lead => stepDiff h lead n i o
-      match tries.find? (fun t => t.2.isNone) with
-      | some t => go t.1 (i + 1) os
-      | none =>
-        match tries.head? with
-        | some t => t.2
-        | none => some "no candidate order"
+      let keys := (n.store.keys ++ o.view.items.map (·.key) ++ o.view.spray.map (·.1)).eraseDups
+      let r := searchStep h n i o keys (keys.length * (leads h).length + 1) []
+      match r.2 with
+      | none => go r.1 (i + 1) os
+      | some d => some d
   go (init h.cfg h.now) 0 h.obs
 
 /-- Judge one line with the given Spec clause set. -/
